@@ -1,4 +1,4 @@
-CONSTANTS K = 39 NP = 2 Sizes = {0, 1, 33, 34, 35, 38, 73} Fills = {0, 1, 2} MaxBlocks = 2 Faults = {"none", "drop", "badbp"} TailCheck = TRUE
+CONSTANTS K = 39 NP = 2 Sizes = {0, 1, 33, 34, 35, 38, 73} Fills = {0, 1, 2} MaxBlocks = 2 Faults = {"none", "drop", "badbp"} TailCheck = TRUE Foreign = {"none", "page"} TailAtForeign = TRUE
 SPECIFICATION GSpec
 CONSTRAINT Dump
 CHECK_DEADLOCK FALSE
